@@ -59,6 +59,72 @@ CHECKS = {
          "Served bodies compared after stripping outer whitespace; variables-script bodies not checked (feature marked TODO upstream); evictions during a "
          "single render call not modelled; ASCII class names.",
          "§4 C19"),
+ "C04": ("model_checking",
+         "TLC-evaluated Deps(P, insts) of DjcSemantics.tla over the instances the reference semantics renders + exhaustive pages over an asset-carrying library replayed + TLC validation of random programs x random asset assignments through render_dependencies / middleware / Component.render",
+         "The TLA+ specification derives, from the instances rendered into the page (document order) and the assets of their classes, the inline JS/CSS "
+         "(non-blank, once, first-appearance order) and the Media files incl. inherited Media (Media.extend) that must be delivered, and nothing for unused "
+         "classes. Every enumerated page is rendered in document and fragment mode with placeholder / head-body layouts; the final HTML is parsed "
+         "(inline script/style bodies in order, src/href, decoded data-djc JSON, leftover markers) and compared. Random programs with random assets "
+         "(shared files, inheritance, extend on/off, dict css, blank code, ASCII / underscore / non-ASCII class names) go through the three entry points.",
+         "Order asserted for inline code only; Media files as 'each exactly once'. Documents with nowhere to insert are not used. Subclasses define js/css "
+         "themselves (pair inheritance is C16).",
+         "§4 C04"),
+ "C08": ("model_checking",
+         "TLC enumeration of documents (segment sequences) of DepsInsert.tla with admissible outputs + implementation-shaped DepsInsertImpl refinement + replay through render_dependencies / middleware + TLC trace validation",
+         "DepsInsert.tla specifies Expected(doc, mode) over segments Txt / HeadEnd / BodyEnd / CssPh / JsPh / Marker (markers and placeholders removed, tags at "
+         "every placeholder else CSS before first </head> and JS before last </body>, fragment: appended) with theorems OnlyDocumentedEdits, "
+         "InsertionsDocumented, PlaceholderEquivalence, TypePreserved, PassThrough; DepsInsertImpl models the two-insertion offset arithmetic with named "
+         "deviation switches and TLC shows it refines the spec exactly outside the deviation shapes. All documents up to length 4 (quick) / 5 (thorough) are "
+         "concretised and replayed as str / bytes / SafeString, document / fragment, and through the middleware (html, non-html, streaming); random longer "
+         "documents are validated by Trace_C08 with ACCEPT / DEV / REJECT verdicts.",
+         "Upper-case end tags admit both readings (zone); exotic end-tag spellings and malformed markers are not generated; generated tag blocks are taken "
+         "from the real output of a marker-only document (their content is C04).",
+         "§4 C08"),
+ "C09": ("model_checking",
+         "TLC enumeration of template sources over segment atoms of Lexer.tla (Tokens, StockTokens) + LexerHandover state machine (index_start / lineno_offset loop) + replay on parse_template / patched Template / stock Lexer + TLC trace validation",
+         "Lexer.tla gives Tokens(src) (type, stripped contents, span, line) and a transcription of Django's tag_re split; TLC checks Partition, StockEqual, "
+         "OnlyQuotedClosersDiffer, SingleLineSame and that the hand-over loop (LexerHandover) refines it, with OffsetInv / ResumeInv as invariants and each "
+         "named deviation producing a counterexample that reproduces on the code. Every enumerated source (<=3 segments quick, <=5 thorough subsets) is run "
+         "through parse_template, the patched Template (debug on/off) and both tag_re settings; random sources of 4-14 segments are validated by Trace_C09.",
+         "Zones: block tag with an unbalanced quote, unterminated tag containing a quoted closer, multiline_tags=False with a quoted tag spanning a line "
+         "break (TemplateSyntaxError or any faithful partition accepted).",
+         "§4 C09"),
+ "C11": ("model_checking",
+         "TLC state machine ArgBinding.tla (CPython's binding algorithm: Declare*/Pass*) enumerating (signature, call) cases, each replayed three ways (literal CPython call, fast-path tag, fallback-path tag) + TLC trace validation of deeper random cases",
+         "ArgBinding.tla models Python's argument binding as an online machine with invariants MachineAgreesWithDeclarative, EveryValueBoundOnce, "
+         "KeysNonIdentifierOnlyViaKwargs, PositionalOnlyNeverByKeyword, ErrorsAreSticky; every reachable state is a case exported with Python's answer, the "
+         "admissible set and what the named deviations predict. Each case is executed as a literal CPython call (spec vs CPython: machinery error if they "
+         "differ), through a real template on the fast validation path and on the fallback path; both must be admissible and agree. Random cases up to 7 "
+         "parameters / 7 items are validated by Trace_C11.",
+         "Four zones admit several answers (list spread after keyword, positional after empty dict spread, repeated key via spread, literally repeated keyword); "
+         "kwargs order and messages are not compared.",
+         "§4 C11"),
+ "C14": ("model_checking",
+         "TLC-evaluated Roots / marks of DjcSemantics.tla + exhaustive 'elems' pages replayed with html.parser + TLC validation of random programs + deep chains against the closed form cross-checked with TLC",
+         "The reference semantics computes for every element occurrence the set of component instances it is a root of (depth 0 of the instance's output, "
+         "through slot content and components placed at depth 0); every enumerated page (0..n roots, text-only, component-as-root, roots from fills / "
+         "defaults / loops) and random programs are rendered, the HTML parsed, and the data-djc-id-* attributes of every element compared through the "
+         "Component.id echoes (also: ids distinct, no placeholder left, child attrs consumed). Chains of depth 2000 (wrapped) / 300 (as root) in thorough.",
+         "Well-formed lower-case non-void elements with quoted attributes; the Rust HTML pass is trusted; html.parser lower-cases attribute names.",
+         "§4 C14"),
+ "C17": ("model_checking",
+         "TLC enumeration of (tree, configuration, lookup) over Finder.tla's Exposed predicate, replayed through finder.list / find / staticfiles serve + TLC trace validation of random sessions",
+         "Finder.tla: Exposed(path, cfg) iff some allowed pattern matches and no forbidden one does (suffix = literal endswith; a catalogue of regexes with TLA+ "
+         "predicates calibrated against Python re), lookup normalisation (., .., absolute, sibling prefixes) with NoEscape, DefaultsHideBackend, ForbidWins. "
+         "Every enumerated state is materialised on disk and replayed through list, find (canonical + respellings + escapes) and the serve view; random "
+         "sessions with metacharacter / newline / upper-case names on one long-lived finder are validated by Trace_C17.",
+         "Non-canonical spellings of exposed files may or may not be answered; both deprecated and new forbidden settings together, suffixes without a dot, "
+         "regexes distinguishing absolute from relative paths, symlinks and collectstatic itself are not covered.",
+         "§4 C17"),
+ "C20": ("model_checking",
+         "TLC enumeration of directory trees x root variants x suffixes over Autodiscover.tla (Selected, DotPath, Loadable), replayed on get_component_files / import / autodiscover (in-process and fresh interpreters) + TLC trace validation",
+         "Autodiscover.tla specifies which files are selected (suffix, no part starting with _ except __init__.py, no hidden part, each once) and their dotted "
+         "import path from the project root or app package; every enumerated tree (11 dirs x 21 names, 9 root variants incl. legacy STATICFILES_DIRS tuple "
+         "form and apps inside / outside BASE_DIR) is materialised, get_component_files compared, every loadable file imported and checked to be that very "
+         "file, autodiscover() run where determined; random multi-root sessions are validated by Trace_C20.",
+         "Dotted paths of entries whose directory or stem contains a dot are not compared (selection only); symlinks, overlapping roots, suffixes with glob "
+         "characters are not generated.",
+         "§4 C20"),
  "C18": ("model_checking",
          "TLC exhaustive state graph of LRUCache/TemplateCache + transition replay + TLC trace validation",
          "TLC enumerates the complete state graph of the LRU specification for every cache size and checks "
